@@ -95,12 +95,12 @@ func (propC12) Shrink(x any) []any {
 
 // dbsim part (set by dbsim_create.go once the database engine exists)
 type CreateCase struct {
-	Sched  SchedSpec `json:"sched"`
-	Writes []int     `json:"writes"`
-	World  WorldSpec `json:"world"`
-	Key    string    `json:"key"`
-	Prev   int       `json:"prev"` // size of a previous value of the key (-1: none)
-	NoRoom bool      `json:"no_room,omitempty"`
+	Sched  SchedSpec  `json:"sched"`
+	Writes []int      `json:"writes"`
+	World  WorldSpec  `json:"world"`
+	Key    string     `json:"key"`
+	Prev   int        `json:"prev"` // size of a previous value of the key (-1: none)
+	NoRoom bool       `json:"no_room,omitempty"`
 	Caps   []RootSpec `json:"caps,omitempty"` // root capacities installed after the previous value was stored
 }
 
